@@ -1,7 +1,6 @@
 package main
 
 import (
-	"os"
 	"bytes"
 	"encoding/json"
 	"fmt"
@@ -10,6 +9,7 @@ import (
 	"net/http"
 	"net/http/httptest"
 	"net/url"
+	"os"
 	"sort"
 	"strconv"
 	"strings"
@@ -523,6 +523,7 @@ func (s *storageRunner) httpStep(r *runner, f []string, line string) bool {
 			// (in a scratch directory of its own: the process works there from now on; all its files were opened before)
 			if dir, derr := os.MkdirTemp("", "burrowverif-http-"); derr == nil {
 				_ = os.Chdir(dir)
+				scratchDirs = append(scratchDirs, dir)
 			}
 			_ = os.MkdirAll("conf", 0o755)
 			_ = os.WriteFile("conf/open.tmpl", []byte("{{.Cluster}} {{.Group}} {{.Result.Status}}"), 0o644)
